@@ -11,6 +11,6 @@ RULE = ("E1 part: same scenario as C05 with AUTO_RESIZE tables (chain-length and
         "nothing is touched afterwards. Non-trivial: an operation overlapped a resize. distinct = distinct case text.")
 ASSUMPTIONS = G.E1_ASSUMPTIONS + ["bounded: <=4 threads, <=7 ops per thread, tables <=16 buckets (mmap: <=512)"]
 EXAMPLES = {"quick": 300, "thorough": 5000}
-example = L.make_example("resize", faults=("pthread_create_eagain",))
+example = L.make_example(["resize", "resize", "resize", "shrink"], faults=("pthread_create_eagain",))
 judge = L.make_judge(lambda text, res: G.flag(res, 1))
 confirm = L.confirm
